@@ -45,7 +45,8 @@ if os.environ.get("NORMINETTE_VERIF") == "1" and os.environ.get("NV_TRACE"):
         orig_run = Registry.run
 
         def init(self, file):
-            _trace["files"].append({"path": file.path, "basename": file.basename, "state": "lexing", "_file": file})
+            _trace["files"].append({"path": file.path, "basename": file.basename, "state": "lexing", "_file": file,
+                                    "_d0": len(sess.diags), "inline": file._source is not None})
             return orig_init(self, file)
 
         def run(self, context):
@@ -68,6 +69,8 @@ if os.environ.get("NORMINETTE_VERIF") == "1" and os.environ.get("NV_TRACE"):
                 raise
             finally:
                 rec["unrecognised"] = len(sess.unrec)
+                rec["events"] = [[d["code"], d["level"], d["hl"][0][0] if d["hl"] else None,
+                                  d["hl"][0][1] if d["hl"] else None, d["emitter"]] for d in sess.diags[rec.get("_d0", 0):]]
 
         Lexer.__init__ = init
         Registry.run = run
@@ -86,6 +89,7 @@ if os.environ.get("NORMINETTE_VERIF") == "1" and os.environ.get("NV_TRACE"):
         files = []
         for r in out["files"]:
             f = r.pop("_file", None)
+            r.pop("_d0", None)
             if f is not None:
                 r["status"] = f.errors.status
                 r["diags"] = [[e.name, e.level, e.highlights[0].lineno if e.highlights else None,
